@@ -138,13 +138,13 @@ def check_case(ck, case, ans, stats):
     rrows = canon_rows(real["rows"], sq)
     mrows = S.lean_rows(ans["rows"])
     order = order_names(q)
-    sliced = q.get("limit") not in (None, 0) or q.get("offset") not in (None, 0)
+    sliced = q.get("limit") is not None or q.get("offset") not in (None, 0)
     if real["columns"] != ans["columns"]:
         stats["disagree"] += 1
         ck.obligation("correspondence C01 (behavioural): column names", False, f"real={real['columns']} model={ans['columns']}")
     elif sliced:
         mbody = S.lean_rows(ans["body"])
-        why = valid_slice(rrows, [tuple(r) for r in mbody], real["columns"], order, q.get("limit") or None, q.get("offset") or None)
+        why = valid_slice(rrows, [tuple(r) for r in mbody], real["columns"], order, q.get("limit"), q.get("offset") or None)
         if why:
             stats["disagree"] += 1
             ck.obligation("correspondence C01 (behavioural): DuckDB rows vs Plan.eval", False, f"{why}; case={canon(strip(case))[:800]}")
@@ -173,8 +173,6 @@ def check_case(ck, case, ans, stats):
 def classify(case):
     """known-finding class of a case, decided from the input alone (never from the outcome)"""
     q = case["query"]
-    if q.get("limit") == 0:
-        return "F1-limit-zero"
     aliased = {a for a, _ in q.get("aliases", [])}
     for f in q["filters"]:
         for c in filter_cols(f):
